@@ -13,6 +13,6 @@ def groups(tier):
 def replay(rec):
     if rec["replay"].get("group") in ("grid", "keyring"):
         return fpgrid.fp_replay(rec)
-    if rec["replay"].get("group", "").startswith("model["):
+    if rec["replay"].get("group", "").startswith(("model[", "wiring[", "init_spread[")):
         return modelstep.replay("C05", rec)
     return kern.kernel_replay("C05", rec)
